@@ -1382,11 +1382,25 @@ def cleanup_rules(ctx, crate, info, conv, label):
     set_len = [(bb, t) for bb, t in calls if callee_path(t) == 'alloc::vec::Vec::<T, A>::set_len']
     into_inner = [(bb, t) for bb, t in calls if callee_path(t) == 'core::mem::manually_drop::ManuallyDrop::<T>::into_inner']
     ret_ok = None
+    all_ok = []
     for i, j, s in b.statements():
-        if s['k'] == 'assign' and s['place'] == {'l': 0, 'p': [], 'ty': s['place']['ty']} and s['rv']['k'] == 'aggregate' and s['rv'].get('variant') == 'Ok':
+        if s['k'] == 'assign' and s['place'] == {'l': 0, 'p': [], 'ty': s['place']['ty']} and s['rv']['k'] == 'aggregate' and s['rv'].get('variant') == 'Ok' and not b.blocks[i]['cleanup']:
             ret_ok = (i, s)
+            all_ok.append((i, s))
     if ret_ok is None:
         raise CUnanalysable('no `Ok(..)` result in the outer function')
+    # a success answer produced anywhere else (an early return, a shortcut for some inputs) is not
+    # the input allocation
+    t_cu_bb = info['bb_cu']
+    for i, s in all_ok:
+        if i not in b.reachable(t_cu_bb, unwind=False):
+            ctx.add(['C08'], 'O5', fmt_span(s.get('span')), 'the function can answer Ok(..) without having gone through the conversion (a result built before / beside catch_unwind): that vector is not the input allocation', key='ok-elsewhere')
+    if len(all_ok) > 1:
+        later = [x for x in all_ok if x[0] in b.reachable(t_cu_bb, unwind=False)]
+        if len(later) > 1:
+            raise CUnanalysable('several Ok(..) results after catch_unwind')
+        if later:
+            ret_ok = later[0]
     st = trace_value(b, defs, ret_ok[1]['rv']['fields'][0])
     chain_ok = False
     if st[-1][0] == 'call' and callee_path(st[-1][1]) == 'core::mem::manually_drop::ManuallyDrop::<T>::into_inner' and any(s[0] == 'cast' and s[1] == 'Transmute' for s in st):
